@@ -25,3 +25,26 @@ PROPS["C07"] = {
     "assumptions": ["nil and empty header sets are the same (empty) set; nil and empty bodies are equal (bytes.Equal)",
                     "CR-LF pairs inside text fields are outside the representable domain of CSV (excluded by construction)"],
 }
+
+PROPS["C01"] = {
+    "title": "Pacers keep the hit count on their declared schedule in closed loop",
+    "units": [{"name": "pacer", "pkg": "lib", "run": "^TestC01"}],
+    "rule": "Four rapid sub-checks against a reference schedule S(t) written from the documented formulas: "
+            "(totality) any int/float parameter values incl. range extremes, NaN/Inf, any elapsed/hits: no panic and "
+            "the documented sign rules; (const-exact) constant pacer point-wise with big-integer arithmetic incl. the "
+            "overflow boundary; (trajectory) closed-loop virtual-time simulations of 60..2000 (thorough 20000) "
+            "consecutive Pace calls with generated stall histories for constant, sine (amp/mean up to 0.9999) and "
+            "linear (positive/negative slope) pacers, invariants P1 never-early, P2 catch-up, P3 never-late after "
+            "every step; (rate) Rate() equals the declared instantaneous rate. Non-trivial trajectory = >= 50 "
+            "releases with >= 1 positive wait and, for stall runs, >= 1 catch-up release; distinct = distinct case.",
+    "explanation": "P1: count after a release <= S(r + q) + 1; P2: positive wait only if S(now) < hits+1; P3 (constant, "
+                   "sine): S(r - q) - hits <= 1 whenever the pacer chose the instant; q = (hits+1) ns is the statement's "
+                   "one nanosecond of quantisation per hit interval, applied on both sides because time.Duration cannot "
+                   "express a hit interval more finely; tolerance 1e-2 + 1e-9*S absorbs float64 error.",
+    "technique": "property-based closed-loop simulation in virtual time against a reference schedule model (rapid)",
+    "level_text": "generated-input and generated-history search with an explicit reference model of each pacer's "
+                  "schedule; exact big-integer oracle for the constant pacer; cannot prove absence",
+    "level_note": "reference schedules for sine/linear are float64 (domain bounded to S <= 1e12, t <= 2^62 so the "
+                  "error stays far below one hit); the 1 ns/hit quantisation allowance is applied to the upper bound as well",
+    "assumptions": ["time.Duration granularity (1 ns) is inherent to the Pacer API"],
+}
